@@ -14,6 +14,10 @@ namespace Nitime.C02.Props
 open Nitime Nitime.C02 Nitime.Generated
 open Nitime.C01 (Num toPs)
 
+def countOf (r : Except Err Axis) : Option Nat := r.toOption.map (·.n)
+def dtOf (r : Except Err Axis) : Option Int := r.toOption.map (·.dt)
+def durOf (r : Except Err Axis) : Option Int := r.toOption.map (·.dur)
+
 /-! ### argument combinations -/
 
 /-- the documented argument combinations (docstring of `UniformTime`), as a predicate on the
@@ -181,6 +185,74 @@ theorem same_sampling_same_axis {s s' : Spec} {a a' : Axis} {r r' : Resolved} {l
   intro i _
   simp [sampleAt, ht, hdd]
 
+/-- `attrs_describe_axis` (rate), interval path: for every positive binary64 interval `x` and every
+unit the stored interval and the reported rate describe the same sampling,
+`|Δ − 10¹²/rate| ≤ 1/2 + 5·(10¹²/rate)·2⁻⁵³` — within 1 ps whenever the period is below 2⁴⁹ ps
+(≈ 9.4 min), within binary64 resolution of the rate beyond -/
+theorem attrs_rate_interval_path {s : Spec} {a : Axis} {x : Rat} {u : TimeUnit}
+    (h : mkUniform .intended s = .ok a) (hd : s.data = none)
+    (hi : s.interval = some (.num (.flt x))) (hu : s.unit = .ok u) (hx : 0 < x) :
+    0 < a.rate ∧ |(a.dt : Rat) - 10 ^ 12 / a.rate| ≤ 1 / 2 + 5 * (10 ^ 12 / a.rate) / 2 ^ 53 ∧
+    (10 ^ 12 / a.rate ≤ 2 ^ 49 → |(a.dt : Rat) - 10 ^ 12 / a.rate| < 1) := by
+  obtain ⟨_, r, hr, hb⟩ := mkUniform_inv h
+  obtain ⟨_, _, hdt, hrate, _, _, _⟩ := build_intended hb
+  obtain ⟨_, e1, e2, _, _⟩ := resolve_interval_flt hr hd hi hu
+  rw [hdt, hrate, e1, e2]
+  obtain ⟨c1, c2⟩ := interval_rate_close u x hx
+  refine ⟨c1, c2, fun hP => lt_of_le_of_lt c2 ?_⟩
+  have : 5 * (10 ^ 12 / frequency (F64.fdiv 1 x) u) / 2 ^ 53 ≤ 5 * 2 ^ 49 / 2 ^ 53 := by
+    apply div_le_div_of_nonneg_right _ (by positivity)
+    linarith
+  norm_num at this ⊢
+  linarith
+
+/-- `attrs_describe_axis` (rate), rate path (a `Frequency` object, e.g. another axis' rate): the
+reported rate is the given one and the stored interval is within one picosecond, plus binary64
+resolution, of its period: `|Δ − 10¹²/rate| ≤ 1 + 7·(10¹²/rate + 1)·2⁻⁵³` -/
+theorem attrs_rate_rate_path {s : Spec} {a : Axis} {hz : Rat} {u : TimeUnit}
+    (h : mkUniform .intended s = .ok a) (hd : s.data = none) (hi : s.interval = none)
+    (hr : s.rate = some (.freq hz)) (hu : s.unit = .ok u) (hhz : 0 < hz) :
+    a.rate = hz ∧ |(a.dt : Rat) - 10 ^ 12 / a.rate| ≤ 1 + 7 * (10 ^ 12 / a.rate + 1) / 2 ^ 53 := by
+  obtain ⟨_, r, hres, hb⟩ := mkUniform_inv h
+  obtain ⟨_, _, hdt, hrate, _, _, _⟩ := build_intended hb
+  obtain ⟨x, ex, e1, e2, _, _⟩ := resolve_rate_freq hres hd hi hr hu
+  obtain ⟨x', ex', c⟩ := rate_interval_close u hz hhz
+  rw [ex] at ex'
+  cases ex'
+  rw [hdt, hrate, e1, e2]
+  exact ⟨rfl, c⟩
+
+/-- `same_sampling_same_axis`, interval vs. its reciprocal rate, any unit: when `x` (in unit `u`)
+is a whole number `k < 2⁴⁹` of picoseconds, the axis specified by the interval `x` and the axis
+specified by the rate that the first one reports are identical (start, interval, count,
+duration, every sample), and the interval is exactly `k` -/
+theorem same_sampling_interval_vs_rate {l : Nat} {t : Option TArg} {u : TimeUnit} {x : Rat} {k : Int}
+    {a a' : Axis}
+    (h : mkUniform .intended { length := some l, interval := some (.num (.flt x)), t0 := t, unit := .ok u } = .ok a)
+    (h' : mkUniform .intended { length := some l, rate := some (.freq (frequency (F64.fdiv 1 x) u)), t0 := t,
+                                unit := .ok u } = .ok a')
+    (hx : 0 < x) (hk : x * (factor u : Rat) = k) (hlt : k < 2 ^ 49) :
+    a.dt = k ∧ a'.rate = a.rate ∧
+    a.t0 = a'.t0 ∧ a.dt = a'.dt ∧ a.n = a'.n ∧ a.dur = a'.dur ∧ samples a = samples a' := by
+  obtain ⟨_, r, hr, hb⟩ := mkUniform_inv h
+  obtain ⟨_, r', hr', hb'⟩ := mkUniform_inv h'
+  obtain ⟨_, e1, e2, _, e4⟩ := resolve_interval_flt hr rfl rfl rfl
+  obtain ⟨x', ex, f1, f2, _, f4⟩ := resolve_rate_freq hr' rfl rfl rfl rfl
+  obtain ⟨k1, x'', ex'', k2⟩ := same_sampling_interval_rate u x k hx hk hlt
+  rw [ex] at ex''
+  cases ex''
+  obtain ⟨_, _, hdt, hrate, _, _, _⟩ := build_intended hb
+  obtain ⟨_, _, _, hrate', _, _, _⟩ := build_intended hb'
+  refine ⟨by rw [hdt, e1, k1], by rw [hrate, hrate', e2, f2], ?_⟩
+  exact same_sampling_same_axis h h' hr hr' rfl rfl (by rw [e4, f4]) (by rw [e1, f1, k1, k2])
+
+/-- non-vacuity of the hypotheses above: 0.5 s = 5·10¹¹ ps, and the 2 Hz axis it reports -/
+example :
+    dtOf (mkUniform .intended { length := some 4, interval := some (.num (.flt (1 / 2))), unit := .ok .s }) = some 500000000000 ∧
+    mkUniform .intended { length := some 4, rate := some (.freq (frequency (F64.fdiv 1 (1 / 2)) .s)), unit := .ok .s }
+      = mkUniform .intended { length := some 4, interval := some (.num (.flt (1 / 2))), unit := .ok .s } := by
+  decide +kernel
+
 /-! ### exact binary64 witnesses: what today's code does, and what the intended model does -/
 
 /-- 2.2 as a double -/
@@ -191,9 +263,6 @@ def x1_3 : Rat := F64.ofBits 0x3fd5555555555555
 def x0_81327 : Rat := F64.ofBits 0x3fea064ece9a2c67
 def r0_81327 : Rat := F64.ofBits 0x3ff3ac752f8f559e
 
-def countOf (r : Except Err Axis) : Option Nat := r.toOption.map (·.n)
-def dtOf (r : Except Err Axis) : Option Int := r.toOption.map (·.dt)
-def durOf (r : Except Err Axis) : Option Int := r.toOption.map (·.dur)
 
 /-- today: 100 samples of 2.2 min requested, 101 delivered (duration computed in binary64:
 13200000000000002 ps) -/
@@ -266,6 +335,15 @@ theorem duration_object_counterexample :
 
 example :
     dtOf (mkUniform .intended { length := some 7, duration := some (.tobj 50000000000 .ms) }) = some 7142857143 := by
+  decide +kernel
+
+/-- today (before the repair), even exact integer inputs lose a sample count beyond 2⁵³ ps: 300 samples of
+977781009731899 ps (a series' lazily built axis passes its interval as a time object) come out as 301,
+because numpy's `arange` length is the ceiling of a binary64 quotient -/
+theorem len_eq_data_counterexample :
+    arangeLen (300 * 977781009731899) 977781009731899 = 301 ∧
+    (mkSeries .current 300 none (some (.tobj 977781009731899 .s)) none none (.ok .s)).toOption.map (·.time.n) = some 301 ∧
+    (mkSeries .intended 300 none (some (.tobj 977781009731899 .s)) none none (.ok .s)).toOption.map (·.time.n) = some 300 := by
   decide +kernel
 
 /-! ### what does hold for the unchanged tree -/
